@@ -142,6 +142,12 @@ pub enum FaultKind {
     DelayedRpcError,
     /// slow uplink: the error reply arrives while the client is still blocked writing the next (large) load
     RpcErrorWhileNextSendBlocked,
+    /// the resource is taken: an error with tag in-use (0), lock-denied (1) or resource-denied (2), and the same
+    /// answer to every later request of the same name (whoever holds the resource keeps holding it)
+    Busy(u8),
+    /// the error is reported inside the operation's results element, below a per-routing-engine element
+    /// (`<commit-results><routing-engine><name>re0</name><rpc-error>..`), as Junos reports a failed commit
+    NestedError,
 }
 
 #[derive(Debug, Clone)]
@@ -248,6 +254,7 @@ fn serve(accept: impl FnOnce() -> Option<Box<dyn AgentConn>>, scn: &Scenario) ->
     let mut held: Vec<String> = Vec::new();
     let mut loads_seen = 0usize;
     let mut last_ids: Vec<String> = Vec::new();
+    let mut busy: Option<(String, FaultKind)> = None;
     loop {
         if stepping {
             conn.grant();
@@ -268,7 +275,14 @@ fn serve(accept: impl FnOnce() -> Option<Box<dyn AgentConn>>, scn: &Scenario) ->
         if is_load {
             loads_seen += 1;
         }
-        let fault = scn.fault.filter(|(k, _)| *k == idx).map(|f| f.1);
+        let mut fault = scn.fault.filter(|(k, _)| *k == idx).map(|f| f.1);
+        if let Some(FaultKind::Busy(_)) = fault {
+            busy = Some((op.name.clone(), fault.expect("fault")));
+        } else if let Some((name, kind)) = &busy {
+            if *name == op.name {
+                fault = Some(*kind);
+            }
+        }
         // the positive reply and its effect on the configuration
         let mut positive = |working: &mut Option<Instance>, out: &mut ServerOut| -> String {
             match op.name.as_str() {
@@ -354,6 +368,22 @@ fn serve(accept: impl FnOnce() -> Option<Box<dyn AgentConn>>, scn: &Scenario) ->
                 out.acked[idx] = Some(false);
                 let body = if is_load { format!("<load-configuration-results>{ERR}<load-error-count>1</load-error-count></load-configuration-results>") } else { ERR.to_string() };
                 send(&mut conn, reply(&id, &body));
+            }
+            Some(FaultKind::Busy(t)) => {
+                out.acked[idx] = Some(false);
+                let tag = ["in-use", "lock-denied", "resource-denied"][usize::from(t) % 3];
+                let err = ERR.replace("operation-failed", tag).replace("injected failure", "configuration database is held by another user");
+                let body = if is_load { format!("<load-configuration-results>{err}<load-error-count>1</load-error-count></load-configuration-results>") } else { err };
+                send(&mut conn, reply(&id, &body));
+            }
+            Some(FaultKind::NestedError) => {
+                out.acked[idx] = Some(false);
+                let wrapper = match op.name.as_str() {
+                    "load-configuration" => "load-configuration-results",
+                    "commit-configuration" => "commit-results",
+                    _ => "results",
+                };
+                send(&mut conn, reply(&id, &format!("<{wrapper}><routing-engine><name>re0</name>{ERR}</routing-engine></{wrapper}>")));
             }
             Some(FaultKind::RpcErrorWhileNextSendBlocked) => {
                 out.acked[idx] = Some(false);
@@ -528,6 +558,155 @@ pub fn run_agent_on(scn: &Scenario, irrd: &Irrd, tag: &str, tls: Option<&crate::
     rec
 }
 
+// ---------------- C19: the agent binary in daemon mode, real signals, real time ----------------
+
+#[derive(Debug, Clone, Copy)]
+pub enum DaemonStep {
+    /// wait until the fake router has seen this many complete sessions
+    Sessions(usize),
+    Signal(i32),
+    /// nothing must happen for this long (milliseconds)
+    Quiet(u64),
+    /// the process ends by itself with this status
+    Exit(i32),
+}
+
+/// Runs the agent binary with `--frequency <period>` against the fake router and plays `steps`. The first
+/// session is answered with an error to the first request if `first_run_fails`.
+pub fn daemon_e2e(tag: &str, period: u64, first_run_fails: bool, steps: &[DaemonStep]) -> Vec<(String, String)> {
+    use std::sync::atomic::{AtomicBool, AtomicUsize, Ordering};
+    let mut problems = Vec::new();
+    let model = base_model(0);
+    let irrd = Irrd::start(model.db.clone());
+    let dir = root().join("run").join(format!("{}-{tag}", std::process::id()));
+    _ = std::fs::create_dir_all(&dir);
+    let sock = dir.join("cli.sock");
+    _ = std::fs::remove_file(&sock);
+    let listener = UnixListener::bind(&sock).expect("bind relay socket");
+    let sessions = Arc::new(AtomicUsize::new(0));
+    let stop = Arc::new(AtomicBool::new(false));
+    let (sessions2, stop2) = (sessions.clone(), stop.clone());
+    let base = Scenario { instance_name: None, running: policies(1), ephemeral: Instance::default(), fault: None, expected_loads: 1, irr_plan: Plan::default() };
+    let server = thread::spawn(move || {
+        let mut installed = Instance::default();
+        let mut n = 0usize;
+        while !stop2.load(Ordering::SeqCst) {
+            let Some(conn) = RelayConn::accept(&listener, Duration::from_millis(100)) else { continue };
+            let scn = Scenario { ephemeral: installed.clone(), fault: (n == 0 && first_run_fails).then_some((0, FaultKind::RpcError)), ..base.clone() };
+            let out = serve(move || Some(Box::new(conn) as Box<dyn AgentConn>), &scn);
+            installed = out.ephemeral;
+            n += 1;
+            _ = sessions2.fetch_add(1, Ordering::SeqCst);
+        }
+    });
+    let exe_dir: PathBuf = std::env::current_exe().expect("exe").parent().expect("dir").to_path_buf();
+    let stderr_path = dir.join("agent.stderr");
+    let mut child = Command::new(exe_dir.join("vagent"))
+        .args(["--frequency", &period.to_string(), "--irrd-host", "127.0.0.1", "--irrd-port", &irrd.port.to_string(), "--ephemeral-db", "bgpfu", "-v"])
+        .env("BGPFU_VERIF_CLI_PATH", exe_dir.join("vrelay"))
+        .env("VERIF_RELAY_SOCKET", &sock)
+        .env("NO_COLOR", "1")
+        .stdin(Stdio::null())
+        .stdout(Stdio::null())
+        .stderr(std::fs::File::create(&stderr_path).expect("stderr file"))
+        .spawn()
+        .expect("spawn vagent");
+    let pid = child.id() as i32;
+    let patience = Duration::from_secs(10);
+    let mut exited: Option<Option<i32>> = None;
+    'steps: for (i, step) in steps.iter().enumerate() {
+        match *step {
+            DaemonStep::Sessions(n) => {
+                let t0 = Instant::now();
+                while sessions.load(Ordering::SeqCst) < n {
+                    if let Ok(Some(st)) = child.try_wait() {
+                        exited = Some(st.code());
+                        problems.push(("daemon-exited-early".into(), format!("step {i} ({step:?}): the daemon ended with {:?} while session {n} was expected", st.code())));
+                        break 'steps;
+                    }
+                    if t0.elapsed() > patience {
+                        problems.push(("run-did-not-start".into(), format!("step {i} ({step:?}): only {} session(s) after {patience:?}", sessions.load(Ordering::SeqCst))));
+                        break 'steps;
+                    }
+                    thread::sleep(Duration::from_millis(5));
+                }
+                if sessions.load(Ordering::SeqCst) > n {
+                    problems.push(("unexpected-run".into(), format!("step {i}: {} sessions where {n} were expected", sessions.load(Ordering::SeqCst))));
+                }
+            }
+            DaemonStep::Signal(sig) => {
+                // SAFETY: a signal to our own child process
+                unsafe {
+                    _ = libc::kill(pid, sig);
+                }
+            }
+            DaemonStep::Quiet(ms) => {
+                let before = sessions.load(Ordering::SeqCst);
+                thread::sleep(Duration::from_millis(ms));
+                if let Ok(Some(st)) = child.try_wait() {
+                    exited = Some(st.code());
+                    problems.push(("daemon-exited-early".into(), format!("step {i}: the daemon ended with {:?} although nothing asked it to", st.code())));
+                    break 'steps;
+                }
+                if sessions.load(Ordering::SeqCst) != before {
+                    problems.push(("unexpected-run".into(), format!("step {i}: a run started although neither the timer nor a signal asked for one ({} s period)", period)));
+                }
+            }
+            DaemonStep::Exit(code) => {
+                let t0 = Instant::now();
+                loop {
+                    if let Ok(Some(st)) = child.try_wait() {
+                        exited = Some(st.code());
+                        if st.code() != Some(code) {
+                            let log = strip_ansi(&std::fs::read_to_string(&stderr_path).unwrap_or_default());
+                            let tail = log.lines().rev().take(3).collect::<Vec<_>>().into_iter().rev().collect::<Vec<_>>().join(" | ");
+                            problems.push(("unclean-exit".into(), format!("step {i}: the daemon ended with status {:?} (signal {:?}) instead of {code}; log tail: {tail}", st.code(), std::os::unix::process::ExitStatusExt::signal(&st))));
+                        }
+                        break;
+                    }
+                    if t0.elapsed() > patience {
+                        problems.push(("signal-ignored".into(), format!("step {i}: the daemon is still running {patience:?} after the signal")));
+                        break 'steps;
+                    }
+                    thread::sleep(Duration::from_millis(5));
+                }
+            }
+        }
+    }
+    if exited.is_none() {
+        // SAFETY: SIGKILL to our own child
+        unsafe {
+            _ = libc::kill(pid, libc::SIGKILL);
+        }
+        _ = child.wait();
+    }
+    stop.store(true, Ordering::SeqCst);
+    _ = server.join();
+    _ = std::fs::remove_dir_all(&dir);
+    problems
+}
+
+pub fn c19_slice(report: &mut Report) -> u64 {
+    use DaemonStep::{Exit, Quiet, Sessions, Signal};
+    let cases: Vec<(&str, u64, bool, Vec<DaemonStep>)> = vec![
+        ("SIGINT-while-waiting", 3600, false, vec![Sessions(1), Quiet(300), Signal(libc::SIGINT), Exit(0)]),
+        ("SIGTERM-while-waiting", 3600, false, vec![Sessions(1), Quiet(300), Signal(libc::SIGTERM), Exit(0)]),
+        ("SIGHUP-then-SIGTERM", 3600, false, vec![Sessions(1), Quiet(300), Signal(libc::SIGHUP), Sessions(2), Quiet(300), Signal(libc::SIGTERM), Exit(0)]),
+        ("SIGHUP-then-SIGINT", 30, false, vec![Sessions(1), Quiet(300), Signal(libc::SIGHUP), Sessions(2), Quiet(300), Signal(libc::SIGINT), Exit(0)]),
+        ("SIGINT-during-back-off", 3600, true, vec![Sessions(1), Quiet(400), Signal(libc::SIGINT), Exit(0)]),
+        ("SIGTERM-during-back-off", 30, true, vec![Sessions(1), Quiet(400), Signal(libc::SIGTERM), Exit(0)]),
+        ("SIGHUP-during-back-off", 3600, true, vec![Sessions(1), Quiet(400), Signal(libc::SIGHUP), Sessions(2), Quiet(300), Signal(libc::SIGTERM), Exit(0)]),
+    ];
+    let results: Vec<(&str, Vec<(String, String)>, Value)> = cases.par_iter().map(|(name, period, fails, steps)| (*name, daemon_e2e(&format!("C19-{name}"), *period, *fails, steps), json!({"agent": "vagent (the agent's own main)", "frequency": period, "first_run_fails": fails, "steps": format!("{steps:?}")}))).collect();
+    let n = results.len() as u64;
+    for (name, problems, case) in results {
+        for (class, what) in problems {
+            report.violation(&format!("C19:e2e:{class}:{name}"), &format!("{name}: {what}"), case.clone());
+        }
+    }
+    n
+}
+
 fn record_json(scn: &Scenario, rec: &RunRecord) -> Value {
     json!({
         "managed_policies": scn.running.iter().map(|s| s.name.clone()).collect::<Vec<_>>(),
@@ -564,9 +743,12 @@ pub fn run_c04(report: &mut Report) {
             continue;
         }
         report.sample(json!({"fault_free_run": {"N": n, "requests": rec.rpcs, "exit": rec.exit}}));
-        let kinds = [FaultKind::RpcError, FaultKind::MixedSeverity, FaultKind::Malformed, FaultKind::UnknownId, FaultKind::StaleId, FaultKind::CloseBefore, FaultKind::CloseAfter];
+        let mut kinds = vec![FaultKind::RpcError, FaultKind::MixedSeverity, FaultKind::Malformed, FaultKind::UnknownId, FaultKind::StaleId, FaultKind::CloseBefore, FaultKind::CloseAfter, FaultKind::Busy(0), FaultKind::Busy(1), FaultKind::NestedError];
+        if thorough {
+            kinds.push(FaultKind::Busy(2));
+        }
         for k in 0..expect.len() {
-            for kind in kinds {
+            for &kind in &kinds {
                 if kind == FaultKind::StaleId && k == 0 {
                     continue;
                 }
